@@ -597,4 +597,6 @@ pub fn run(e: &Engine) {
         |c| serde_json::json!({"documents": c.docs.iter().map(|d| render_doc(d).0).collect::<Vec<_>>()}),
         check_inbound,
     );
+    e.fuzz_corpus("c14_inbound");
+    e.fuzz_campaign("c14_inbound", 500000);
 }
